@@ -31,16 +31,18 @@ def sh(cmd, timeout, cwd=None, env=None):
 
 class Lock:
     """flock-based lock.  The global lock (name None) only guards the short dependency phase
-    (_CoqProject/Makefile/.Makefile.d); long proof builds run under a per-property lock."""
+    (_CoqProject/Makefile/.Makefile.d); builds run under per-owner locks (see make): exclusive on the
+    owner whose files are being (re)built, shared on the owners whose .vo files are only read."""
 
-    def __init__(self, name=None):
+    def __init__(self, name=None, shared=False):
         self.name = name
+        self.shared = shared
 
     def __enter__(self):
         fn = '.build.lock' if self.name is None else os.path.join('build', '.lock.' + self.name)
         os.makedirs(os.path.join(VERIF, 'build'), exist_ok=True)
-        self.f = open(os.path.join(VERIF, fn), 'w')
-        fcntl.flock(self.f, fcntl.LOCK_EX)
+        self.f = open(os.path.join(VERIF, fn), 'a')
+        fcntl.flock(self.f, fcntl.LOCK_SH if self.shared else fcntl.LOCK_EX)
         return self
 
     def __exit__(self, *a):
@@ -49,6 +51,8 @@ class Lock:
 
 
 def write_if_changed(path, text):
+    """Write atomically (temp file + rename) and only when the content differs, so that a concurrent
+    reader never sees a partial file and an unchanged file keeps its mtime (no rebuild)."""
     try:
         with open(path) as f:
             if f.read() == text:
@@ -56,8 +60,10 @@ def write_if_changed(path, text):
     except FileNotFoundError:
         pass
     os.makedirs(os.path.dirname(path), exist_ok=True)
-    with open(path, 'w') as f:
+    tmp = '%s.tmp.%d' % (path, os.getpid())
+    with open(tmp, 'w') as f:
         f.write(text)
+    os.replace(tmp, path)
     return True
 
 
@@ -109,13 +115,71 @@ def locate_error(log):
     return {'file': fn, 'line': line, 'lemma': name, 'message': msg[:1500]}
 
 
+def owner_of(path):
+    """The property a file of the Coq tree belongs to (Cxx in its base name), or 'LIB'."""
+    m = re.search(r'C\d\d', os.path.basename(path))
+    return m.group(0) if m else 'LIB'
+
+
+def vo_closure(targets):
+    """Transitive .vo prerequisites of the targets, read from .Makefile.d."""
+    deps = {}
+    try:
+        with open(os.path.join(COQ, '.Makefile.d')) as f:
+            for line in f:
+                if ':' not in line:
+                    continue
+                lhs, rhs = line.split(':', 1)
+                outs = lhs.split()
+                if not outs or not outs[0].endswith('.vo'):
+                    continue
+                deps[outs[0]] = [d for d in rhs.split() if d.endswith('.vo')]
+    except OSError:
+        return set()
+    seen, todo = set(), list(targets)
+    while todo:
+        t = todo.pop()
+        for d in deps.get(t, []):
+            if d not in seen:
+                seen.add(d)
+                todo.append(d)
+    return seen
+
+
 def make(targets, timeout=1500, jobs=8):
+    """make the targets so that concurrent checks of DIFFERENT properties never write a .vo another one
+    is reading: prerequisites owned by other properties (and Lib) are brought up to date first, each under
+    its owner's exclusive lock; the targets themselves are then built under the own exclusive lock while
+    shared locks are held on every other owner (locks always taken in sorted order: no deadlock)."""
     with Lock():
         ensure_makefile()
         sh('make .Makefile.d', 300, cwd=COQ)
     name = os.path.basename(targets[0]).split('.')[0].split('_')[0] if targets else 'misc'
-    with Lock(name):
+    by_owner = {}
+    for d in vo_closure(targets):
+        o = owner_of(d)
+        if o != name:
+            by_owner.setdefault(o, []).append(d)
+    # owners in dependency order (an owner's files may need another owner's: build that one first)
+    needs = {o: {owner_of(d) for d in vo_closure(fs)} - {o} for o, fs in by_owner.items()}
+    order, left = [], set(by_owner)
+    while left:
+        ready = sorted(o for o in left if not (needs[o] & left)) or sorted(left)
+        order.append(ready[0])
+        left.discard(ready[0])
+    for o in order:
+        with Lock(o):
+            sh('ulimit -v 24000000; make -j%d %s' % (jobs, ' '.join(sorted(by_owner[o]))), timeout, cwd=COQ)
+    held = []
+    try:
+        for o in sorted(set(by_owner) | {name}):
+            l = Lock(o, shared=(o != name))
+            l.__enter__()
+            held.append(l)
         return sh('ulimit -v 24000000; make -j%d %s' % (jobs, ' '.join(targets)), timeout, cwd=COQ)
+    finally:
+        for l in reversed(held):
+            l.__exit__()
 
 
 def theorem_names(pid):
